@@ -18,6 +18,7 @@ from __future__ import annotations
 
 import ast
 import itertools
+import re
 from typing import Any, Dict, List, Optional, Tuple
 
 ALPHABET = "ABCDEFGHIJKLMNOPQRSTUVWXYZ"
@@ -49,6 +50,26 @@ class NPArr:
         return tuple(out)
 
 
+class EnumVal(int):
+    """member of an IntEnum of the package (Tip): an int that remembers its class and name"""
+
+    def __new__(cls, value, enum, name):
+        o = int.__new__(cls, value)
+        o.enum, o.member = enum, name
+        return o
+
+    @property
+    def value(self):
+        return int(self)
+
+    @property
+    def name(self):
+        return self.member
+
+    def __repr__(self):
+        return f"{self.enum}.{self.member}"
+
+
 class _Signal(Exception):
     def __init__(self, kind, value=None):
         self.kind, self.value = kind, value
@@ -76,6 +97,71 @@ class Interp:
         self.attrs: Dict[str, Any] = {}
         self.steps = 0
         self.prog, self.module, self.depth = prog, module, depth
+        self.enums: Dict[str, Dict[str, int]] = {}
+        self.cls = None  # the class whose object `self` is (method calls on self are dispatched along its MRO)
+        self.tainted = False  # a skipped statement may have ended the call
+        self._modcache: Dict[str, Any] = {}
+
+    def module_value(self, name: str):
+        """a module-level name bound once to a display of evaluable things (table of tuples, Tip members, ...)"""
+        if self.module is None or name not in getattr(self.module, "assigns", {}):
+            return UNK
+        if name in self._modcache:
+            return self._modcache[name]
+        self._modcache[name] = UNK  # cycles
+        e = self.module.assigns[name]
+        n_bind = sum(1 for st in self.module.tree.body for t in (st.targets if isinstance(st, ast.Assign) else [st.target] if isinstance(st, (ast.AnnAssign, ast.AugAssign)) else [])
+                     if isinstance(t, ast.Name) and t.id == name)
+        if n_bind == 1 and isinstance(e, (ast.Tuple, ast.List, ast.Dict, ast.Set, ast.Constant, ast.Attribute, ast.BinOp, ast.Subscript)):
+            top = Interp("§noself", {}, self.prog, self.module, self.depth + 1)
+            top.enums = self.enums
+            top._modcache = self._modcache
+            v = top.ev(e)
+            if isinstance(v, (list, dict, set)):
+                v = _freeze(v)
+            self._modcache[name] = v
+        return self._modcache[name]
+
+    def call_method(self, name: str, args, kw):
+        """a method called on self: the definition that the object's class resolves to, interpreted on the same attributes"""
+        if self.prog is None or self.cls is None or self.depth >= 3:
+            return UNK
+        m = self.prog.find_method(self.cls, name)
+        if m is None or not m.params:
+            return UNK
+        a = m.node.args
+        decos = {ast.unparse(d) for d in m.node.decorator_list}
+        if a.vararg or a.kwarg or decos - {"staticmethod"}:
+            return UNK
+        formal = m.params if "staticmethod" in decos else m.params[1:]
+        if len(args) > len(formal):
+            return UNK
+        env = dict(zip(formal, args))
+        for k_, v_ in kw.items():
+            if k_ not in formal or k_ in env:
+                return UNK
+            env[k_] = v_
+        for p_ in formal:
+            if p_ not in env:
+                d = m.param_default(p_)
+                if not isinstance(d, ast.Constant):
+                    return UNK
+                env[p_] = d.value
+        for cn, cv in module_constants(m.module).items():
+            env.setdefault(cn, cv)
+        sub = Interp("§noself" if "staticmethod" in decos else m.params[0], env, self.prog, m.module, self.depth + 1)
+        sub.enums, sub.cls, sub.attrs = self.enums, self.cls, self.attrs
+        try:
+            sub.block(list(m.node.body))
+        except _Signal as s_:
+            self.tainted = self.tainted or sub.tainted or s_.kind not in ("return", "raise")
+            if s_.kind == "return":
+                return s_.value
+            if s_.kind == "raise":
+                raise
+            return UNK
+        self.tainted = self.tainted or sub.tainted
+        return UNK if sub.tainted else None
 
     def call_package_function(self, name: str, args, kw):
         """a module-level function of the package called by its bare name: interpreted recursively (depth <= 3)"""
@@ -102,22 +188,30 @@ class Interp:
                     return UNK
                 env[p_] = d.value
         # module-level constants of the callee's module
-        for cn, cv in g.module.assigns.items():
-            if isinstance(cv, ast.Constant) and cn not in env:
-                env[cn] = cv.value
+        for cn, cv in module_constants(g.module).items():
+            env.setdefault(cn, cv)
         sub = Interp("§noself", env, self.prog, g.module, self.depth + 1)
+        sub.enums = self.enums
         try:
             sub.block(list(g.node.body))
         except _Signal as s_:
+            self.tainted = self.tainted or sub.tainted or s_.kind not in ("return", "raise")
             if s_.kind == "return":
                 return s_.value
             if s_.kind == "raise":
                 raise
             return UNK
-        return None
+        self.tainted = self.tainted or sub.tainted
+        return UNK if sub.tainted else None
 
     # -------------------------------------------------------------- statements
     def poison(self, stmts) -> None:
+        # statements that are skipped may have ended the call (return / raise): from here on, reaching a `raise` or a
+        # `return` proves nothing about what the real function does
+        for st in stmts:
+            for n in ast.walk(st):
+                if isinstance(n, (ast.Return, ast.Raise)):
+                    self.tainted = True
         for t in _stored(stmts):
             root = t
             while isinstance(root, ast.Subscript):
@@ -147,6 +241,8 @@ class Interp:
                         getattr(recv, v.func.attr)(*args)
                     except Exception:
                         self.poison_expr(v.func.value)
+            elif isinstance(v, ast.Call) and isinstance(v.func, ast.Name):
+                self.ev(v)  # a package function called for its checks: a raise in it ends this call too
             return
         if isinstance(st, ast.Assign):
             val = self.ev(st.value)
@@ -165,6 +261,7 @@ class Interp:
         if isinstance(st, ast.If):
             t = self.ev(st.test)
             if t is UNK:
+                # (a raising guard whose test cannot be evaluated is assumed to pass - see run_function)
                 only_raises = all(isinstance(x, ast.Raise) for x in st.body) and not st.orelse
                 if not only_raises:
                     self.poison(st.body + st.orelse)
@@ -195,9 +292,10 @@ class Interp:
                 self.block(st.orelse)
             return
         if isinstance(st, ast.Return):
-            raise _Signal("return", self.ev(st.value) if st.value is not None else None)
+            v_ = self.ev(st.value) if st.value is not None else None
+            raise _Signal("return", UNK if self.tainted else v_)
         if isinstance(st, ast.Raise):
-            raise _Signal("raise")
+            raise _Signal("unknown-path" if self.tainted else "raise")
         if isinstance(st, ast.Break):
             raise _Signal("break")
         if isinstance(st, ast.Continue):
@@ -208,7 +306,15 @@ class Interp:
                 raise _Signal("raise")
             return
         if isinstance(st, ast.Try):
-            self.block(st.body)
+            try:
+                self.block(st.body)
+            except _Signal as s:
+                if s.kind == "raise" and st.handlers:
+                    # whether a handler takes it is not modelled: everything the statement may bind is unknown from here
+                    self.poison([st])
+                    self.block(st.finalbody)
+                    return
+                raise
             self.block(st.orelse)
             self.block(st.finalbody)
             return
@@ -302,8 +408,15 @@ class Interp:
         if isinstance(e, ast.Name):
             if e.id in self.env:
                 return self.env[e.id]
-            return {"True": True, "False": False, "None": None}.get(e.id, UNK)
+            if e.id in self.enums:
+                return [EnumVal(v, e.id, k) for k, v in self.enums[e.id].items()]
+            if e.id in ("True", "False", "None"):
+                return {"True": True, "False": False, "None": None}[e.id]
+            return self.module_value(e.id)
         if isinstance(e, ast.Attribute):
+            if isinstance(e.value, ast.Name) and e.value.id in self.enums and e.value.id not in self.env:
+                members = self.enums[e.value.id]
+                return EnumVal(members[e.attr], e.value.id, e.attr) if e.attr in members else UNK
             if isinstance(e.value, ast.Name) and e.value.id == self.selfn:
                 # public read-only views of the private tables
                 if e.attr in self.attrs:
@@ -313,9 +426,13 @@ class Interp:
                 return UNK
             if isinstance(e.value, ast.Name) and e.value.id == "string" and e.attr == "ascii_uppercase":
                 return ALPHABET
+            if isinstance(e.value, ast.Name) and e.value.id == "re" and "re" not in self.env and e.attr.isupper() and hasattr(re, e.attr):
+                return getattr(re, e.attr)
             base = self.ev(e.value)
             if isinstance(base, NPArr) and e.attr == "shape":
                 return base.shape
+            if isinstance(base, EnumVal) and e.attr in ("value", "name"):
+                return int(base) if e.attr == "value" else base.member
             return UNK
         if isinstance(e, ast.JoinedStr):
             out = ""
@@ -492,14 +609,40 @@ class Interp:
         kw = {k.arg: self.ev(k.value) for k in e.keywords}
         if isinstance(fn, ast.Name):
             if fn.id == "isinstance" and len(e.args) == 2:
-                names = [x.id for x in (e.args[1].elts if isinstance(e.args[1], ast.Tuple) else [e.args[1]]) if isinstance(x, ast.Name)]
-                total = len(e.args[1].elts) if isinstance(e.args[1], ast.Tuple) else 1
+                specs = e.args[1].elts if isinstance(e.args[1], ast.Tuple) else [e.args[1]]
                 if args[0] is UNK:
                     return UNK
-                known = [TYPES[n] for n in names if n in TYPES]
-                if any(isinstance(args[0], t) for t in known):
-                    return True
-                return False if len(known) == total else UNK
+                v0 = args[0]
+                plain = isinstance(v0, (int, float, str, bool, list, tuple, dict, set, type(None))) and not isinstance(v0, NPArr)
+                undecided = False
+                for sp in specs:
+                    if isinstance(sp, ast.Name) and sp.id in self.enums:
+                        if isinstance(v0, EnumVal) and v0.enum == sp.id:
+                            return True
+                        continue
+                    if isinstance(sp, ast.Name) and sp.id in TYPES:
+                        if isinstance(v0, TYPES[sp.id]):
+                            return True
+                        continue
+                    dotted = ast.unparse(sp)
+                    tail = dotted.split(".")[-1]
+                    if plain and dotted.split(".")[0] in ("np", "numpy") and tail in ("integer", "floating", "number", "ndarray", "generic", "bool_", "str_", "int64", "int32", "float64", "float32"):
+                        continue  # a builtin value is no instance of a numpy type
+                    if plain and tail in ("Integral",):
+                        if isinstance(v0, int):
+                            return True
+                        continue
+                    if plain and tail in ("Number", "Real"):
+                        if isinstance(v0, (int, float)):
+                            return True
+                        continue
+                    if plain and tail in ("Iterable", "Sequence", "Collection", "Sized"):
+                        if isinstance(v0, (str, list, tuple, dict, set)):
+                            return True
+                        if isinstance(v0, (int, float, bool, type(None))):
+                            continue
+                    undecided = True
+                return UNK if undecided else False
             if fn.id in SAFE:
                 if any(a is UNK for a in args) or any(v is UNK for v in kw.values()):
                     return UNK
@@ -524,10 +667,28 @@ class Interp:
                     return [tuple(p) for p in itertools.product(*args)]
                 except Exception:
                     return UNK
+            if isinstance(fn.value, ast.Name) and fn.value.id == "re" and "re" not in self.env:
+                if any(a is UNK for a in args) or any(v is UNK for v in kw.values()):
+                    return UNK
+                if fn.attr in ("compile", "match", "fullmatch", "search", "findall", "split", "sub", "escape"):
+                    try:
+                        return getattr(re, fn.attr)(*args, **kw)
+                    except Exception:
+                        return UNK
+                return UNK
+            if isinstance(fn.value, ast.Name) and fn.value.id == self.selfn and self.cls is not None and fn.value.id not in self.env:
+                if any(a is UNK for a in args) or any(v is UNK for v in kw.values()):
+                    return UNK
+                return self.call_method(fn.attr, args, kw)
             recv = self.ev(fn.value)
             if recv is UNK or any(a is UNK for a in args):
                 return UNK
             try:
+                if isinstance(recv, re.Pattern) and fn.attr in ("match", "fullmatch", "search", "findall", "split", "sub"):
+                    return getattr(recv, fn.attr)(*args, **kw)
+                if isinstance(recv, re.Match) and fn.attr in ("group", "groups", "groupdict", "start", "end", "span"):
+                    r = getattr(recv, fn.attr)(*args, **kw)
+                    return r
                 if isinstance(recv, dict) and fn.attr in ("items", "keys", "values", "get", "copy"):
                     r = getattr(recv, fn.attr)(*args)
                     return [tuple(x) for x in r] if fn.attr == "items" else list(r) if fn.attr in ("keys", "values") else r
@@ -557,6 +718,13 @@ def _as_load(t: ast.AST) -> ast.AST:
         if hasattr(x, "ctx"):
             x.ctx = ast.Load()
     return n
+
+
+def _freeze(v):
+    # module-level tables are read-only for the interpreted calls: hand out copies
+    import copy as _copy
+
+    return _copy.deepcopy(v)
 
 
 def _no_unknown(v) -> bool:
@@ -600,6 +768,7 @@ def tables(ctx) -> List[Tuple[Tuple[int, int, Optional[int]], Dict[str, Any]]]:
             if isinstance(cv, ast.Constant):
                 params.setdefault(cn, cv.value)
         it = Interp(selfn, params, ctx.prog, f.module)
+        it.cls = f.cls
         try:
             it.block([s for s in f.node.body])
         except _Signal as s:
@@ -637,7 +806,21 @@ def verdict(ctx, attr: str) -> Tuple[str, str]:
     return "holds", f"`{attr}` equals the prescribed table for all {n} geometries of the evaluation table (bounded argument)"
 
 
-def run_function(f, params: Dict[str, Any], prog=None) -> Tuple[str, Any]:
+def module_constants(module) -> Dict[str, Any]:
+    """Module-level names bound to a literal, or to a regular expression compiled from literals"""
+    out: Dict[str, Any] = {}
+    for cn, cv in module.assigns.items():
+        if isinstance(cv, ast.Constant):
+            out[cn] = cv.value
+    for cn, cv in module.assigns.items():
+        if isinstance(cv, ast.Call) and ast.unparse(cv.func) == "re.compile":
+            v = Interp("§noself", dict(out)).ev(cv)
+            if v is not UNK:
+                out[cn] = v
+    return out
+
+
+def run_function(f, params: Dict[str, Any], prog=None, enums=None) -> Tuple[str, Any]:
     """Interpret a (helper-expanded) function body for concrete arguments: ('return', value) | ('raise', None) | ('unknown', why).
     Raising guards whose test is UNKNOWN are assumed to pass, so 'raise' means: a guard that could be evaluated rejected the call."""
     selfn = f.params[0] if f.cls is not None and f.params else "§noself"
@@ -646,10 +829,22 @@ def run_function(f, params: Dict[str, Any], prog=None) -> Tuple[str, Any]:
         if p not in env and p != selfn:
             d = f.param_default(p)
             env[p] = d.value if isinstance(d, ast.Constant) else UNK
-    for cn, cv in f.module.assigns.items():
-        if isinstance(cv, ast.Constant):
-            env.setdefault(cn, cv.value)
+    for cn, cv in module_constants(f.module).items():
+        env.setdefault(cn, cv)
+    if prog is not None:
+        # statements of helpers of other modules expanded into this body (sa/inline.py) still name their module's constants
+        free = {n.id for n in ast.walk(f.node) if isinstance(n, ast.Name) and isinstance(n.ctx, ast.Load)} - set(env)
+        for name_ in sorted(free):
+            if name_ in f.module.assigns or name_ in getattr(f.module, "functions", {}) or name_ in getattr(f.module, "classes", {}):
+                continue
+            hits = [m for m in prog.modules.values() if name_ in m.assigns and m is not f.module]
+            if len(hits) == 1:
+                mc = module_constants(hits[0])
+                if name_ in mc:
+                    env[name_] = mc[name_]
     it = Interp(selfn, env, prog, f.module)
+    it.cls = f.cls if selfn not in env else None
+    it.enums = dict(enums or {})
     try:
         it.block(list(f.node.body))
     except _Signal as s:
